@@ -3116,19 +3116,55 @@ def _memo_invalidation_for(ctx, fi):
             return True
         return any(refers(meths[c], attr, seen + (m.node.name,)) for c in self_calls(m) if c not in seen and c != m.node.name)
 
+    def direct_writes(m):
+        """[(attribute of self that is written, text of the key it is written under or None)]; SQL that writes counts as ('<sql>', None)"""
+        out = []
+        for n in ast.walk(m.node):
+            base, key = None, None
+            if isinstance(n, (ast.Attribute, ast.Subscript)) and isinstance(n.ctx, (ast.Store, ast.Del)):
+                base = n
+            elif isinstance(n, ast.Call) and isinstance(n.func, ast.Attribute) and n.func.attr in MUTATORS:
+                base = n.func.value
+            if base is not None:
+                while isinstance(base, ast.Subscript):
+                    key = norm(base.slice)
+                    base = base.value
+                if isinstance(base, ast.Attribute) and isinstance(base.value, ast.Name) and base.value.id == "self":
+                    out.append((base.attr, key))
+            if isinstance(n, ast.Constant) and isinstance(n.value, str) and re.search(r"\b(insert|update|delete|replace)\b", n.value, re.I) and re.search(r"\b(into|from|set)\b", n.value, re.I):
+                out.append(("<sql>", None))
+        return out
+
+    def resets(m, attr, seen=()):
+        """the method empties or re-binds the memo (itself or through a method of the class it calls)"""
+        for n in ast.walk(m.node):
+            if isinstance(n, ast.Call) and isinstance(n.func, ast.Attribute) and n.func.attr == "clear" and isinstance(n.func.value, ast.Attribute) and n.func.value.attr == attr:
+                return True
+            if isinstance(n, ast.Attribute) and n.attr == attr and isinstance(n.ctx, ast.Store) and isinstance(n.value, ast.Name) and n.value.id == "self":
+                return True
+        return any(resets(meths[c], attr, seen + (m.node.name,)) for c in self_calls(m) if c not in seen and c != m.node.name)
+
+    def discards(m, attr):
+        return {norm(n.args[0]) for n in ast.walk(m.node) if isinstance(n, ast.Call) and isinstance(n.func, ast.Attribute) and n.func.attr in ("discard", "remove", "pop") and n.args
+                and isinstance(n.func.value, ast.Attribute) and n.func.value.attr == attr} | \
+               {norm(n.slice) for n in ast.walk(m.node) if isinstance(n, ast.Subscript) and isinstance(n.ctx, ast.Del) and isinstance(n.value, ast.Attribute) and n.value.attr == attr}
+
     def lacking(attr):
         out, writers = [], 0
         for n, m in sorted(meths.items()):
             if m is fi or n in ("__init__", "__new__") or n == getattr(fi.node, "name", None):
                 continue
             try:
-                if writes_state(m):
-                    if any(isinstance(x, ast.Attribute) and x.attr == attr and isinstance(x.ctx, ast.Store) for x in ast.walk(m.node)) and not any(
-                            isinstance(x, ast.Attribute) and isinstance(x.ctx, ast.Store) and x.attr != attr and isinstance(x.value, ast.Name) and x.value.id == "self" for x in ast.walk(m.node)):
-                        continue            # a method that only maintains the memo itself
-                    writers += 1
-                    if not refers(m, attr):
-                        out.append(n)
+                dw = [w_ for w_ in direct_writes(m) if w_[0] != attr]
+                if not dw:
+                    continue                # changes state only through methods that are judged on their own, or maintains the memo itself
+                writers += 1
+                if resets(m, attr):
+                    continue
+                dk = discards(m, attr)
+                # a write under a key is answered by dropping that key's entry; anything else needs the memo emptied
+                if not all(k_ is not None and k_ in dk for _a, k_ in dw):
+                    out.append(n)
             except RecursionError:
                 continue
         # a class none of whose other methods changes its state: what the memo depends on is changed from OUTSIDE (the
